@@ -194,8 +194,8 @@ func x1c20RandString(g *G, sep string, maxAtoms int) []byte {
 }
 
 func genX1C20Split(g *G) {
-	// named edge cases first
-	g.Case([]string{"reset",
+	// named edge cases first (g.Each: fixed and exhaustive parts are dealt to the generator shards)
+	g.Each([]string{"reset",
 		"lines x", "lines x0a", "lines x610a", "lines x610a0a", "lines x0a0a", "lines x0a61", "lines x61", "lines x610a62", "lines x610a620a",
 		"split x x2c", "split x x", "split x61 x", "split x2c x2c", "split x2c2c x2c", "split x61 x6161", "split x6161616161 x6161",
 		"split x6162616261 x616261", "split x612c62 x2c", "split x2c612c x2c", "split xc3a9e282acf09f9880 x", "split xc3 x", "split xe282 x", "split x80c3a9ff x",
@@ -208,7 +208,7 @@ func genX1C20Split(g *G) {
 			ops = append(ops, x1c20SplitOp(s, []byte(sep)))
 		}
 		ops = append(ops, "lines "+c20Hex(s))
-		g.Case(ops)
+		g.Each(ops)
 	})
 	// exhaustive: valid, truncated and damaged UTF-8 with the EMPTY separator (ties runeSize /
 	// runeCount to DecodeRuneInString / RuneCountInString); also a one-byte separator inside
@@ -216,11 +216,11 @@ func genX1C20Split(g *G) {
 	x1c20All([]byte{0x61, 0x80, 0xbf, 0xc3, 0xe2, 0xf0, 0xa9}, g.Scale(4, 5), func(s []byte) {
 		ops = append(ops, x1c20SplitOp(s, nil))
 		if len(ops) > 4 {
-			g.Case(ops)
+			g.Each(ops)
 			ops = []string{"reset"}
 		}
 	})
-	g.Case(ops)
+	g.Each(ops)
 	// the lead x second-byte class table of UTF-8 well-formedness, padded with continuation bytes
 	for _, b0 := range c20ByteWide {
 		ops := []string{"reset"}
@@ -233,7 +233,7 @@ func genX1C20Split(g *G) {
 				ops = append(ops, x1c20SplitOp(append(s, 'a'), nil))
 			}
 		}
-		g.Case(ops)
+		g.Each(ops)
 	}
 	// random longer strings around repeated / overlapping / multi-byte separators
 	cases := g.Scale(1500, 15000)
